@@ -1,4 +1,17 @@
+from .exception import ProphyError
 from .scalar import prophy_data_object
+
+
+def as_bytes(data):
+    """ What decode reads: bytes; a bytearray, memoryview or array is read as the bytes it holds. """
+    if isinstance(data, bytes):
+        return data
+    try:
+        return memoryview(data).tobytes()
+    except TypeError:
+        if not data and isinstance(data, type(u"")):
+            return b""
+        raise ProphyError("decode needs bytes, not {}".format(type(data).__name__))
 
 
 class _composite_base(prophy_data_object):
